@@ -300,6 +300,14 @@ func c05r3(r *R) {
 					schemes = append(schemes, s)
 				}
 			}
+			// the list kept in a package-level variable: what the package initialiser puts into it
+			if c, ok := ins.(*ssa.Call); ok && strings.HasPrefix(calleeName(c.Common()), "slices.Contains") {
+				if ld, ok := c.Common().Args[0].(*ssa.UnOp); ok {
+					if g, ok := ld.X.(*ssa.Global); ok {
+						schemes = append(schemes, globalStringList(g)...)
+					}
+				}
+			}
 		})
 		var bad []string
 		for _, s := range schemes {
@@ -713,4 +721,54 @@ func parseModeMapTable(r *R, pm *ssa.Function, ps []Path, modes map[string]strin
 		}
 	}
 	return dedupStrings(why), true
+}
+
+// globalStringList: the string constants a package-level []string variable is initialised with (a slice literal
+// assigned once in the package initialiser); nil when it is assigned anywhere else.
+func globalStringList(g *ssa.Global) []string {
+	var out []string
+	stores := 0
+	for _, m := range g.Pkg.Members {
+		fn, ok := m.(*ssa.Function)
+		if !ok {
+			continue
+		}
+		for _, f := range withClosures(fn) {
+			for _, b := range f.Blocks {
+				for _, ins := range b.Instrs {
+					st, ok := ins.(*ssa.Store)
+					if !ok || st.Addr != ssa.Value(g) {
+						continue
+					}
+					stores++
+					if f.Name() != "init" {
+						return nil
+					}
+					sl, ok := st.Val.(*ssa.Slice)
+					if !ok {
+						return nil
+					}
+					arr, ok := sl.X.(*ssa.Alloc)
+					if !ok {
+						return nil
+					}
+					for _, ref := range *arr.Referrers() {
+						if ia, ok := ref.(*ssa.IndexAddr); ok {
+							for _, rr := range *ia.Referrers() {
+								if es, ok := rr.(*ssa.Store); ok && es.Addr == ssa.Value(ia) {
+									if s, ok := constString(es.Val); ok {
+										out = append(out, s)
+									}
+								}
+							}
+						}
+					}
+				}
+			}
+		}
+	}
+	if stores != 1 {
+		return nil
+	}
+	return out
 }
